@@ -291,9 +291,6 @@ def r4(ctx):
         decided = (ne is False) or (src is False) or want
         ctx.check(decided and res is want, key, f"must be True iff the command is non-empty and the file has a source extension: {p.describe()}", sup.loc())
     # schema validation
-    fj = cc.module.classes["CompilationDatabase"].find_method("from_json")
-    ok = any(u(c.func) == "codebasin.util._validate_json" and u(c.args[1]) == "'compiledb'" for c in fj.calls())
-    ctx.soft(ok, "__init__:CompilationDatabase.from_json:validated", "the database must be validated against the compilation-database schema", fj.loc())
     ff = cc.module.classes["CompilationDatabase"].find_method("from_file")
     ok = any(u(c.func) == "codebasin.util._load_json" for c in ff.calls())
     ctx.soft(ok, "__init__:CompilationDatabase.from_file:validated", "from_file must load through the validating loader", ff.loc())
@@ -389,17 +386,61 @@ def r7(ctx):
             ctx.violation(key, "a malformed compilation database passes validation", loc)
         except jsonschema.exceptions.ValidationError:
             ctx.ok(key)
-    # one CompileCommand per JSON entry, in order
-    fj = repo.cls("__init__", "CompilationDatabase").find_method("from_json")
-    t = u(fj.node)
-    ok = "commands = [CompileCommand.from_json(c) for c in instance]" in t and "return cls(commands)" in t
-    ctx.soft(ok, "__init__:CompilationDatabase.from_json:one-command-per-entry", "every entry of the database must become a CompileCommand, in order (no merging, no de-duplication)", fj.loc())
-    it = repo.cls("__init__", "CompilationDatabase").find_method("__iter__")
-    ctx.soft("yield from self.commands" in u(it.node), "__init__:CompilationDatabase.__iter__", "iteration must yield every command", it.loc())
+    # one CompileCommand per JSON entry, in order; fields taken over unchanged (decision tables)
+    from ..spec import appended, n_iter, tab, vt
+
+    cdb = repo.cls("__init__", "CompilationDatabase")
+    fj = cdb.find_method("from_json")
+    inst = fj.params[1]
+    for p in tab(fj):
+        key = "__init__:CompilationDatabase.from_json:one-command-per-entry"
+        res = vt(p.result[1]) if p.result[0] == "return" else ""
+        n = n_iter(p, inst)
+        want_items = [f"CompileCommand.from_json({inst}[{i}])" for i in range(n)]
+        keyed = [e for e in p.effects if e[0] in ("store", "del") and "[" in str(e[1])] + [k for k in p.atoms if " In " in k]
+        ok = res == f"cls(comp:[CompileCommand.from_json(_c0) for _c0 in {inst}])"
+        if not ok and n and not keyed:
+            lists = {str(e[1]).rsplit(".", 1)[0] for e in p.effects if e[0] == "call" and str(e[1]).endswith(".append")} | {str(e[1]) for e in p.effects if e[0] == "aug"}
+            ok = any(appended(p, nm) == want_items for nm in lists) and res.startswith("cls(")
+        if not ok and not keyed and not any(e[0] == "loop-bound" for e in p.effects) and n == 0 and res.startswith("cls("):
+            continue  # empty database
+        if not ok and not keyed and not res.startswith("cls("):
+            raise AnalysisError(f"CompilationDatabase.from_json: form not recognised: {p.describe()[:200]}")
+        ctx.check(ok, key, f"every entry of the database must become a CompileCommand, in order (no merging, no de-duplication, no filtering): {p.describe()[:240]}", fj.loc())
+        val = [e for e in p.effects if e[0] == "call" and str(e[1]).endswith("_validate_json")]
+        ctx.check(len(val) == 1 and [vt(x).strip("'") for x in val[0][2:]] == [inst, "compiledb"], "__init__:CompilationDatabase.from_json:validated", "the database must be validated against the compilation-database schema before it is used", fj.loc())
+    it = cdb.find_method("__iter__")
+    for p in tab(it):
+        ys = [e for e in p.effects if e[0] in ("yield", "yield_from")]
+        n = n_iter(p, "self.commands")
+        ok = [(e[0], vt(e[1])) for e in ys] in ([("yield_from", "self.commands")], [("yield", f"self.commands[{i}]") for i in range(n)]) and all(k.startswith("more(") for k in p.atoms)
+        ctx.check(ok, "__init__:CompilationDatabase.__iter__", f"iteration must yield every command, in order: {p.describe()[:160]}", it.loc())
     cj = repo.cls("__init__", "CompileCommand").find_method("from_json")
-    t = u(cj.node)
-    ok = all(x in t for x in ("instance['file']", "instance.get('directory', None)", "instance.get('arguments', None)", "instance.get('command', None)"))
-    ctx.soft(ok, "__init__:CompileCommand.from_json:fields", "file / directory / arguments / command must be taken from the entry unchanged", cj.loc())
+    ci = cj.params[1]
+    for p in tab(cj):
+        res = p.result[1] if p.result[0] == "return" else None
+        tag = getattr(res, "tag", None)
+        key = "__init__:CompileCommand.from_json:fields:" + ",".join(f"{k.split(' ')[0]}={int(v)}" for k, v in p.atoms.items())
+        if not tag or tag[0] != "call" or tag[1] != "cls":
+            raise AnalysisError(f"CompileCommand.from_json: result is not cls(...): {p.describe()[:160]}")
+        pos, kw = tag[2], tag[3]
+        fields = dict(kw)
+        if pos:
+            fields["filename"] = pos[0]
+        ok = vt(fields.get("filename")) == f"{ci}['file']" if fields.get("filename") is not None else False
+        why = "" if ok else f"filename={vt(fields.get('filename'))}"
+        for fld in ("directory", "arguments", "command"):
+            present = p.atoms.get(f"'{fld}' In {ci}")
+            got = fields.get(fld, None)
+            gt = None if got is None else vt(got)
+            if present is None:
+                good = gt == f"{ci}['{fld}']"
+            else:
+                good = gt == (f"{ci}['{fld}']" if present else None)
+            if not good:
+                ok = False
+                why += f" {fld}={gt}"
+        ctx.check(ok, key, f"file / directory / arguments / command must be taken from the entry unchanged (absent -> None): {why}", cj.loc())
     # compiler identified by argv[0] only
     ld = repo.func("config", "load_database")
     ap = [c for c in ld.calls() if callee(c) == "ArgumentParser"]
